@@ -1279,6 +1279,32 @@ def rule_pk_independent(ctx):
                         and isinstance(sub.args[0], ast.Attribute) and sub.args[0].attr == "__dict__" \
                         and ast.unparse(sub.func.value).endswith("__dict__") and False:
                     pass
+            # every path to a value-return passes through the statement that carries the instance state over: an early exit that
+            # returns a constructor-fresh object (say, for an empty section) resets the state the constructor does not take
+            # (SectionItems.mnemonic_transforms: the copy of a read file's empty section becomes case-sensitive)
+            if deep:
+                cfg = build_cfg(p, fi)
+                carriers = set()
+                for nd in cfg.nodes:
+                    if nd.ast is not None and not isinstance(nd.ast, ast.Return) and any(
+                            isinstance(c, ast.Call) and ast.unparse(c.func).endswith("deepcopy") and any(
+                                isinstance(a, ast.Attribute) and a.attr == "__dict__" or isinstance(a, ast.Call) and ast.unparse(a.func) == "vars"
+                                for x in c.args for a in ast.walk(x))
+                            for c in (ast.walk(nd.ast) if isinstance(nd.ast, (ast.Assign, ast.Expr, ast.AugAssign)) else ())):
+                        carriers.add(nd.id)
+                if carriers:
+                    for r_ in walk_shallow(fi.node):
+                        memo_names = set(fi.params()[1:2])
+                        if isinstance(r_, ast.Return) and r_.value is not None and not (isinstance(r_.value, ast.Constant) and r_.value.value is None) \
+                                and not any(isinstance(m_, ast.Name) and m_.id in memo_names for m_ in ast.walk(r_.value)):     # `return memo[id(self)]`
+                            rn = cfg.nodes_for(r_)
+                            pth = rn and cfg.find_path(cfg.entry, rn, avoid=carriers, skip_labels=EXC)
+                            if pth:
+                                ctx.bad("PK.INDEPENDENT", site + ":early-return", fi, r_,
+                                        "%s.__deepcopy__ can return `%s` without carrying the instance state over (path: %s): state the "
+                                        "constructor does not take (mnemonic_transforms of a section that was read from a file, ...) is "
+                                        "reset in the copy, which then answers lookups differently from the original"
+                                        % (cls.name, unparse(r_.value), cfg.describe_path(pth)))
             ctx.check(deep, "PK.INDEPENDENT", site, fi, fi.node,
                       "%s.__deepcopy__ deep-copies its fields" % cls.name,
                       "%s.__deepcopy__ builds the copy without deep-copying its fields (calls: %s): np.asarray in the constructor "
